@@ -56,3 +56,56 @@ class Bare_import_one:
                             and repo_ncommits(self.repo) == old(repo_ncommits(self.repo)))
                 and implies(changed, repo_ncommits(self.repo) == old(repo_ncommits(self.repo)) + 1
                             and commit_parent(repo_head(self.repo)) == old(repo_head(self.repo))))
+
+
+@contract("xandikos.store.git.BareGitStore._get_etag",
+          params={"self": "obj:xandikos.store.git.BareGitStore", "name": "str"}, returns="str")
+class Bare_get_etag:
+    """Refines GitStore._get_etag with ghost_M = bare_view(self)."""
+
+    def requires(self, name):
+        return rep_bare(self.repo) and name != ".xandikos"
+
+    def raises_KeyError(self, name):
+        return name not in self.ghost_M
+
+    def ensures(self, name, result):
+        return result == self.ghost_M[name]
+
+
+@contract("xandikos.store.git.BareGitStore.get_ctag",
+          params={"self": "obj:xandikos.store.git.BareGitStore"}, returns="str")
+class Bare_get_ctag:
+    """C08: the tag is the hash of the whole current tree (members and metadata entry)."""
+
+    def requires(self):
+        return rep_bare(self.repo)
+
+    def ensures(self, result):
+        return result == tree_id_of(head_tree_entries(self.repo)).decode("ascii")
+
+
+@contract("xandikos.store.git.BareGitStore.delete_one",
+          params={"self": "obj:xandikos.store.git.BareGitStore", "name": "str", "message": "opt[str]",
+                  "author": "opt[str]", "etag": "opt[str]"},
+          modifies=["self.repo"])
+class Bare_delete_one:
+    def requires(self, name, etag):
+        # etag arguments are object ids (ASCII hex) taken from an earlier listing (call sites:
+        # StoreBasedCollection.delete_member passes the resource's current etag)
+        return rep_bare(self.repo) and name != ".xandikos" and (etag is None or is_ascii(etag))
+
+    def raises_NoSuchItem(self, name):
+        return name not in self.ghost_M
+
+    def raises_InvalidETag(self, name, etag):
+        return name in self.ghost_M and etag is not None and self.ghost_M[name] != etag
+
+    def ensures(self, name):
+        return self.ghost_M == old(self.ghost_M).without(name)
+
+    def ensures_history(self, name):
+        return (rep_bare(self.repo)
+                and forall("bytes", lambda o: implies(o in old(repo_objects(self.repo)), o in repo_objects(self.repo)))
+                and repo_ncommits(self.repo) == old(repo_ncommits(self.repo)) + 1
+                and commit_parent(repo_head(self.repo)) == old(repo_head(self.repo)))
